@@ -41,11 +41,17 @@ def hexval(c):
     return v, sym_or(dig, low, upp)
 
 
-def parse_record(line):
+def parse_record(line, canon=None):
     """Decode one record line (no line terminator).  Returns a dict:
        ok       condition: start code, hex digits, RECLEN matches the line length, checksum correct
        reclen, offset, typ, data (list of byte values), checksum_ok, reclen_ok  (for diagnostics)
-    or None if the line cannot be a record at all (too short / odd number of digits): malformed."""
+       lemma    see below
+    or None if the line cannot be a record at all (too short / odd number of digits): malformed.
+
+    canon (optional, proof engineering only): a function (digit_codes, byte_values) -> (byte_values',
+    lemma) that may replace each decoded byte value by an EQUAL simpler term; `lemma` is the condition
+    "all replacements are equal to what this reader computed" and must be discharged by the caller as
+    an obligation of its own.  Without canon (and on plain values) the reader is used as is."""
     cps = cps_of(line)
     if len(cps) < 11 or (len(cps) - 1) % 2:
         return None
@@ -57,6 +63,9 @@ def parse_record(line):
         conds.append(okh)
         conds.append(okl)
         bs.append(h * 16 + l)
+    lemma = True
+    if canon is not None:
+        bs, lemma = canon(cps[1:], bs)
     reclen = bs[0]
     data = bs[4:-1]
     reclen_ok = reclen == len(data)
@@ -66,7 +75,7 @@ def parse_record(line):
     checksum_ok = (total % 256) == 0
     return dict(ok=sym_and(reclen_ok, checksum_ok, *conds), reclen=reclen, offset=bs[1] * 256 + bs[2],
                 typ=bs[3], data=data, reclen_ok=reclen_ok, checksum_ok=checksum_ok,
-                syntax_ok=sym_and(*conds))
+                syntax_ok=sym_and(*conds), lemma=lemma)
 
 
 def be(bs):
@@ -76,15 +85,17 @@ def be(bs):
     return v
 
 
-def decode(lines):
+def decode(lines, canon=None):
     """Decode a whole file (list of lines without terminators; empty lines are not allowed).
     Returns dict(records_ok=condition, structure_ok=condition, conforming=both,
                  segments=[(address, [bytes])...] in file order,
                  start_linear=value|None, start_segment=value|None, records=n).
     records_ok: every line is a well-formed record (start code, digits, RECLEN, checksum);
-    structure_ok: record types, field lengths and the end-of-file rules."""
+    structure_ok: record types, field lengths and the end-of-file rules;
+    lemmas: conjunction of the canon lemmas (see parse_record), True without canon."""
     conds = []
     rconds = []
+    lemmas = []
     segments = []
     start_linear = None
     start_segment = None
@@ -97,11 +108,12 @@ def decode(lines):
         if eof:
             conds.append(False)       # record after the end-of-file record
             break
-        r = parse_record(line)
+        r = parse_record(line, canon)
         if r is None:
             rconds.append(False)
             continue
         rconds.append(r["ok"])
+        lemmas.append(r["lemma"])
         typ = r["typ"]
         data = r["data"]
         if typ == 0:                 # (a symbolic record type forks here)
@@ -159,7 +171,7 @@ def decode(lines):
     records_ok = sym_and(*rconds) if rconds else True
     structure_ok = sym_and(*conds)
     return dict(records_ok=records_ok, structure_ok=structure_ok, conforming=sym_and(records_ok, structure_ok),
-                segments=segments,
+                segments=segments, lemmas=sym_and(*lemmas) if lemmas else True,
                 start_linear=start_linear, start_segment=start_segment, records=n)
 
 
